@@ -12,7 +12,7 @@ SPEC = {
     "search_args": lambda tier: ["C03", "--n", 300, "--histories", 400, "--inproc", 40],
     "level": "proof",
     "trusted_base": [
-        "Coq 8.16.1 kernel + VM (vm_compute for the table theorem, the refutation witness, the 256-case byte lemma of the unquoting proof and "
+        "Coq 8.16.1 kernel + VM (vm_compute for the table theorem, the tracked-witness example, the 256-case byte lemma of the unquoting proof and "
         "the correspondence evaluation); no axioms (Print Assumptions: closed under the global context)",
         "translator (/verif/translator, go/ast): ChangeType iota block, CIStates, stateMatches switch -> Gen/Tables.v (C03_state_tables)",
         "L1 correspondence: real matchEntries (overlay export) on entry lists parsed by the real parser from generated before/after files "
@@ -20,18 +20,20 @@ SPEC = {
         "L2 correspondence: real git.Changes run in-process on scratch repositories with a recording git runner vs Model/GitChanges on the "
         "captured `git log --name-status` text, ls-tree/cat-file/blame answers",
         "L3 correspondence: real GlobFinder + GitBranchFinder.Find in-process vs Model/GitBranch.find on the parsed bodies of the real change list; "
+        "L4: the same real Find vs the composed model Model/GitBranch.classify on (log text, git answers, parser table, glob list); "
         "and the `pint ci` binary with one marker block per state vs the generator's own rule-level truth (implementation-level oracle)",
         "modelled not verified: Go source of changes.go / git_branch.go is hand-modelled; git, the yaml parser, readRules, Rule.IsIdentical/IsSame, "
         "blame parsing, the config/check routing that turns a state into a marker report are inputs or exercised end to end only",
     ],
     "assumptions": [
-        "fresh_dst (guard of C03_changes_track_renames_partial): no rename lands on a path that still has a live change chain; "
-        "refuted without it (delete b; rename a->b; modify b) and replayed on the binary: notes/C03.md",
         "rules are abstracted to (kind, name, content id, lines, rule-error flag); Rule.IsIdentical is an equivalence (tested per case)",
-        "log_faithful (named hypothesis of C03_changes_bodies_fork_and_head): the log is ordered by commit, A/D/M/T/R entries relate the snapshots "
-        "before/after their commit as documented, every path whose blob differs is listed, each path once per commit, and ls-tree/cat-file answer "
+        "log_faithful (named hypothesis of C03_changes_bodies_fork_and_head, C03_compared_versions_are_fork_and_head, C03_history_untouched_noop): "
+        "the log is ordered by commit, A/D/M/T/R entries relate the snapshots before/after their commit as documented (a rename's destination is "
+        "absent before), every path whose blob differs is listed, each path once per commit (no shared destination), and ls-tree/cat-file answer "
         "from those snapshots; tested on every in-process history against `git ls-tree -r` of each commit (histogram keys hyp:*)",
-        "symlinks are outside the modelled fragment (generator creates none)",
+        "parser hypotheses of C03_history_untouched_noop: readRules labels every entry with the path name it was given and finds no rules in an "
+        "absent body (by construction of readRules; not separately tested)",
+        "symlinks, the maxCommits limit and [skip ci] commit messages are outside the modelled fragment (generator creates none)",
         "base of the comparison = the fork point (merge base): `pint ci` reads base..HEAD; commits on the base branch after the fork are ignored",
     ],
 }
@@ -41,21 +43,26 @@ def run(ctx):
     return pv.standard(ctx, SPEC)
 
 MANIFEST = {
-    "text": "Theorems (Coq, no axioms) about executable models of internal/git/changes.go and internal/discovery/git_branch.go as they are now: "
-            "for ALL logs the fold over `git log --name-status` entries refines the specification-level lineage (chain of entries followed "
-            "backwards from a path: origin, commits, status) under the guard fresh_dst, with a machine-checked refutation without it; under the "
-            "named hypothesis log_faithful the selected Body.Before is the origin's content at the fork point and Body.After the content at HEAD; path "
-            "unquoting inverts git's quoting for every byte string; for ALL before/after entry lists matchEntries pairs every HEAD rule once, "
-            "injectively, identical pairs first; Noop implies identical content, same path and same disabled checks; a rule whose content differs "
-            "from every base rule is never Noop and always in a state selected by CIStates (tables regenerated from the Go AST); untouched rules "
-            "are Noop (Moved in a renamed file) by a counting argument over the greedy first pass; unmatched base rules are Removed; the merge keeps "
-            "entries of untouched files unchanged. One open known finding (rename onto a path deleted earlier on the branch: added instead of renamed). "
-            "Tied to the code every run by three differential layers (real matchEntries; real git.Changes on scratch repositories; real "
-            "GlobFinder+Find) and by `pint ci` with per-state marker blocks on generated histories (add/modify/delete/rename file, rule edits, "
-            "cosmetic edits, reorders, file/disable edits, reverts, base advancing, quoted/non-ASCII paths) against the generator's own truth.",
+    "text": "Theorems (Coq, no axioms) about executable models of internal/git/changes.go and internal/discovery/git_branch.go as they are now "
+            "(after fixes a826206, 4412e3a, 4dd7734, d9e7954): for ALL logs, with no guard, the change list built by the fold over `git log "
+            "--name-status` entries is exactly the list of lineage chains of a depth-indexed specification (k-th most recent file at a path followed "
+            "backwards: origin, commits, status); under the named hypothesis log_faithful every record's Body.Before is the origin's content at the "
+            "fork point and Body.After the content at HEAD (a shadowed record is always a deletion), so matchEntries compares the fork version with "
+            "the HEAD version; path unquoting inverts git's quoting for every byte string; for ALL before/after entry lists matchEntries pairs every "
+            "HEAD rule once, injectively, identical pairs first; Noop implies identical content, same path and same disabled checks; a rule whose "
+            "content differs from every base rule is never Noop and always in a state selected by CIStates (tables regenerated from the Go AST); "
+            "unmatched base rules are Removed; the merge keeps entries of untouched files unchanged and a glob entry only takes its state from a "
+            "branch entry at its path and position; the converse at full strength: end to end over Find, and for ANY faithful history, a HEAD rule "
+            "that is untouched relative to the fork-point version of the file it descends from (enough identical base copies, same path, same set of "
+            "disabled checks) is Noop in the list `pint ci` lints. No open known finding. "
+            "Tied to the code every run by four differential layers (real matchEntries; real git.Changes on scratch repositories; real "
+            "GlobFinder+Find; the composed model classify against the real Find from raw git output) and by `pint ci` with per-state marker blocks "
+            "on generated histories (add/modify/delete/rename file, rule edits incl. single map entries and trailing lines, cosmetic edits, reorders, "
+            "file/disable edits, reverts, base advancing, quoted/non-ASCII paths, renames onto deleted paths) against the generator's own truth. "
+            "Only tested, not proved: the models' faithfulness to the Go source, log_faithful for real git, Removed end to end (C20).",
     "note": "Coq 8.16.1 kernel+VM, no axioms; hand-written models validated by differential execution, not derived from Go source; git, yaml "
-            "parser, IsIdentical/IsSame, config routing are inputs or covered end to end only; symlinks and group-level edits out of scope; "
-            "rename-tracking theorem guarded by fresh_dst (refuted otherwise, harmless deviation replayed on the binary).",
-    "technique": "Coq induction over logs/entry lists (refinement to a lineage spec, permutation/counting invariants) + AST-generated state tables "
-                 "+ three-layer differential correspondence + scratch-git end-to-end oracle",
+            "parser, IsIdentical/IsSame, config routing are inputs or covered end to end only; symlinks, group-level edits, maxCommits and "
+            "[skip ci] out of scope; body/history theorems under the named, tested hypothesis log_faithful.",
+    "technique": "Coq induction over logs/entry lists (refinement to a depth-indexed lineage spec, permutation/counting invariants, merge "
+                 "invariants) + AST-generated state tables + four-layer differential correspondence + scratch-git end-to-end oracle",
 }
